@@ -26,23 +26,24 @@ TOL = 1e-12
 
 def check(ctx):
     cases = []
-    for lo, hi in itertools.permutations([-2.0, 0.0, 3.5], 2):
-        for n in range(1, 7):
+    q = ctx.quick
+    for lo, hi in itertools.permutations([-2.0, 0.0, 3.5] if q else [-2.0, 0.0, 3.5, -0.25, 1e3], 2):
+        for n in range(1, 7 if q else 11):
             for ep in (True, False):
                 cases.append({"kind": "uniform", "lo": lo, "hi": hi, "n": n, "endpoint": ep})
     for dim in (1, 2, 3):
-        ns = range(1, 8) if dim == 1 else (range(1, 5) if dim == 2 else range(1, 4))
-        for sigma in (0.5, 2.0):
+        ns = (range(1, 8) if dim == 1 else (range(1, 5) if dim == 2 else range(1, 4))) if q else (range(1, 13) if dim == 1 else (range(1, 7) if dim == 2 else range(1, 5)))
+        for sigma in ((0.5, 2.0) if q else (0.5, 2.0, 0.01, 30.0)):
             for n in ns:
-                for center in (0.0, 1.5):
-                    for lim in (2.0, 3.0):
+                for center in ((0.0, 1.5) if q else (0.0, 1.5, -7.25)):
+                    for lim in ((2.0, 3.0) if q else (2.0, 3.0, 1.0, 4.5)):
                         for norm in ("intensity", "amplitude"):
                             cases.append({"kind": "gauss", "dim": dim, "sigma": sigma, "n": n, "center": center, "limit": lim, "norm": norm})
         if dim > 1:  # per-axis tuples
             for norm in ("intensity", "amplitude"):
                 cases.append({"kind": "gauss", "dim": dim, "sigma": [0.5, 2.0, 1.0][:dim], "n": [2, 3, 4][:dim],
                               "center": [0.0, 1.5, -1.0][:dim], "limit": [2.0, 3.0, 2.5][:dim], "norm": norm})
-    for n in range(1, 7):
+    for n in range(1, 7 if q else 9):
         for w in (False, True):
             cases.append({"kind": "values", "n": n, "weights": w})
     ctx.workers = 8
